@@ -433,6 +433,32 @@ def rule_d(repo, chk):
         for r in klass_ret)
     chk.ob('C13.d', ok, g, 'a class-level hit is reported with is_get_descriptor = has __get__ (never a constant False)',
            str([short(r) for r in klass_ret]))
+    # every hit that comes out of a class dictionary (class MRO or metaclass MRO) is classified, never a constant False
+    for r in rets:
+        first, second = r.value.elts
+        is_inst = isinstance(first, ast.Name) and first.id == 'instance_result'
+        is_default = isinstance(first, ast.Name) and first.id == 'default'
+        if is_inst or is_default:
+            continue
+        classified = (isinstance(second, ast.Constant) and second.value is True) or \
+            (isinstance(second, ast.Call) and call_name(second) == '_safe_hasattr' and norm(second.args[0]) == norm(first)
+             and getattr(second.args[1], 'value', None) == '__get__')
+        chk.ob('C13.d', classified, r, 'class-dictionary hit `%s` is reported with is_get_descriptor computed from __get__' % short(r, 70),
+               'second element: %s' % short(second), key='getattr_static-return|%s' % norm(first))
+    sid = repo.find(STATIC, '_safe_is_data_descriptor')
+    rv = sid.body[-1].value if sid.body and isinstance(sid.body[-1], ast.Return) else None
+    names = sorted(a.value for c in ast.walk(sid) if isinstance(c, ast.Call) and call_name(c) == '_safe_hasattr'
+                   for a in c.args[1:] if isinstance(a, ast.Constant))
+    ok = isinstance(rv, ast.BoolOp) and isinstance(rv.op, ast.Or) and names == ['__delete__', '__set__']
+    chk.ob('C13.d', ok, sid, 'a data descriptor is one that has __set__ OR __delete__ (Python\'s definition; decides instance-dict shadowing)',
+           'returns %s' % short(rv))
+    # the static lookup is stateless: a memo would outlive later changes to a class
+    from ..core import decorators
+    for fn in ('getattr_static', '_check_instance', '_check_class', '_shadowed_dict', '_static_getmro', '_safe_hasattr', '_is_type',
+               '_safe_is_data_descriptor'):
+        f = repo.find(STATIC, fn)
+        chk.ob('C13.d', not f.decorator_list, f, '%s is not memoised/decorated (classes are mutable; answers must be recomputed)' % fn,
+               'decorators: %s' % decorators(f))
     meta = [n for n in ast.walk(g) if isinstance(n, ast.For) and isinstance(n.iter, ast.Call) and call_name(n.iter) == '_static_getmro'
             and norm(n.iter.args[0]).startswith('type(')]
     chk.ob('C13.d', bool(meta), g, 'for a type, the metaclass MRO is searched too')
